@@ -1201,6 +1201,12 @@ def r11(ctx, rep):
     rep.check(n_sites >= 6, "sites", f"expected >= 6 open-syntax construction sites in sql/, found {n_sites}")
 
 
+def r12(ctx, rep):
+    # a number text that starts with `-` and is emitted as an atom is an operand without parentheses: `-{l}` applied to it reads `--0.5`, a comment
+    import C08
+    rep.borrowed(C08.r6, ctx, "C02.R12", "a negative number literal is emitted as unary minus over its magnitude, never as an atom")
+
+
 def run(ctx, rep):
-    for r in (r1, r2, r3, r4, r5, r6, r7, r8, r9, r10, r11):
+    for r in (r1, r2, r3, r4, r5, r6, r7, r8, r9, r10, r11, r12):
         rep.guard(r, ctx)
